@@ -500,11 +500,26 @@ def r4(ctx: Ctx, rid: str) -> None:
         ok = any(isinstance(c, ast.Call) and (dotted(c.func) or "").endswith("_real_base_path") for c in org["calls"])
         ctx.ob(rid, lf, "relpath base is the canonical base", r, ok,
                "relative paths are computed against realpath(base), matching the walk root")
-        walk = ctx.calls(lf, prim="os.walk")
+        walk = ctx.calls(lf, prim="os.walk") + ctx.calls(lf, prim="os.scandir")
         wo = sl.origins(walk[0].ast.args[0], walk[0].id) if walk and isinstance(walk[0].ast, ast.Call) and walk[0].ast.args else {"calls": set()}
-        ctx.ob(rid, lf, "walk root is the resolved (canonical) prefix", walk[0] if walk else None,
+        wnode = walk[0] if walk else None
+        if not walk:
+            # the directory walk may live in a (generator) helper introduced later: judge the argument handed to it
+            for n in ctx.cfg(lf).calls():
+                for t in (n.callee.funcs if n.callee is not None and n.callee.kind == "func" else []):
+                    if ctx.prog.is_known(t):
+                        continue
+                    for wn in ctx.calls(t, prim="os.walk") + ctx.calls(t, prim="os.scandir"):
+                        a0 = wn.ast.args[0] if isinstance(wn.ast, ast.Call) and wn.ast.args else None
+                        for p_ in t.params:
+                            if isinstance(a0, ast.Name) and a0.id == p_.name:
+                                arg = ctx.eff.bind_arg(n.ast, t, p_.name, isinstance(n.ast.func, ast.Attribute))  # type: ignore[arg-type,union-attr]
+                                if arg is not None:
+                                    wo = sl.origins(arg, n.id)
+                                    wnode = n
+        ctx.ob(rid, lf, "walk root is the resolved (canonical) prefix", wnode,
                any(isinstance(c, ast.Call) and (dotted(c.func) or "").endswith("_resolve_path") for c in wo["calls"]),
-               "os.walk starts from _resolve_path(prefix)")
+               "os.walk starts from _resolve_path(prefix)", text="walk-root")
     rp = ctx.fn("storage_backend.LocalStorageBackend._resolve_path")
     rsl = ctx.slicer(rp)
     for c in ctx.calls(rp, prim="os.path.commonpath"):
